@@ -57,7 +57,7 @@ def main():
             "replay_cmd_template": "./check replay {path}",
             "engine": engine,
             "level_claimed": {"category": "exploration", "text": text + ". Seeded search: a clean batch is evidence, not proof.", "design_ref": "DESIGN.md §" + ref},
-            "level_note": "trusted base: the harness (simcore), its model DOM / reference models, rustc; sampled inputs and schedules only; x86-64 (SSE2 + scalar paths, not NEON)",
+            "level_note": "trusted base: the harness (simcore), its model DOM / reference models, rustc; sampled inputs and schedules only; x86-64 (SSE2 + scalar paths, not NEON); three cases in four run in a release build with debug assertions and overflow checks, one in four in a plain release build (knob K3)",
             "technique": tech,
         })
     na = [{"property_id": k, "reason": v} for k, v in sorted({**NOT_APPLICABLE, **PENDING}.items())]
@@ -81,7 +81,7 @@ def main():
         ],
         "checks": checks,
         "not_applicable": na,
-        "notes": "All checks: ./check <ID> quick|thorough, VERIF_SEED honoured (default 20260925). Exit 0 held / 1 VIOLATION / 2 harness error. Known findings: /verif/known_findings.json.",
+        "notes": "setup builds the simulator twice (target/release: debug assertions + overflow checks; target/plain: neither). All checks: ./check <ID> quick|thorough, VERIF_SEED honoured (default 20260925). Exit 0 held / 1 VIOLATION / 2 harness error. Known findings: /verif/known_findings.json.",
     }
     json.dump(m, open("/verif/MANIFEST.json", "w"), indent=1)
     print("wrote MANIFEST.json with", len(checks), "checks,", len(na), "not_applicable")
